@@ -1135,7 +1135,32 @@ impl World for StakingWorld {
                 if v == u {
                     v = (u + 1) % nu;
                 }
-                o(format!("transfer {} {} {}", un, self.name(v), Self::pay(n, &Self::part(rng, &a))))
+                let part = Self::part(rng, &a);
+                // received-position scenario: the receiver then USES the received token (claim / compound / unstake / merge /
+                // stake-with-merge), half of the time after stepping over a week boundary, so that the hand-over of the
+                // position (user totals, boosted rewards of already completed weeks) is exercised while boosted weeks are pending
+                let is_position = pos_u.iter().any(|p| p.0 == n);
+                if is_position && rng.chance(3, 5) {
+                    let vn = self.name(v);
+                    let use_amt = if rng.chance(2, 3) { part.clone() } else { Self::part(rng, &part) };
+                    let pay = Self::pay(n, &use_amt);
+                    let follow = match rng.below(6) {
+                        0 | 1 => format!("compound {} {}", vn, pay),
+                        2 => format!("claim {} - {}", vn, pay),
+                        3 => format!("unstake {} - {}", vn, pay),
+                        4 => {
+                            let own = Self::positions_of(&s, v);
+                            if own.is_empty() { format!("compound {} {}", vn, pay) } else { let q = rng.pick(&own).clone(); format!("merge {} {} {}", vn, pay, Self::pay(q.0, &q.1)) }
+                        }
+                        _ => format!("stake {} - {} {}", vn, amount_mix(rng), pay),
+                    };
+                    // pending is a stack: pushed last = emitted first
+                    self.pending.push(('O', follow));
+                    if rng.chance(1, 2) {
+                        self.pending.push(('O', format!("advance {} {}", rng.range(0, 3), 7 - ((s.epoch - s.first) % 7))));
+                    }
+                }
+                o(format!("transfer {} {} {}", un, self.name(v), Self::pay(n, &part)))
             }
             8 => {
                 let pos_p = Self::positions_of(&s, p1);
